@@ -305,6 +305,8 @@ def check_history(chk, cls, hist, steps, crash, iso):
                                    {"class": cls, "history": hist, "event_index": idx, "event": ev, "object": o, "lineage_param": p, "part": part},
                                    e, h, "probe of object %d differs from its lineage's reference after event %s (replay: echo '%s %s' | C16_VERBOSE=1 c16_history)"
                                    % (o, ev, cls, hist))
+    if crash is not None and crash.startswith("skipped"):
+        return ncmp           # the harness stops forking a class after 4 crashed / hung children (already reported)
     if crash is not None:
         # which part was being computed?
         part, obj, ev = "?", None, (evs[len(steps)] if len(steps) < len(evs) else (last_ev or "?"))
